@@ -21,6 +21,7 @@ from mir_eval import alignment, beat, key, melody, onset, pattern, segment, temp
 from checks import c18 as _c18
 
 PROPERTY_ID = "C04"
+SCALE = (2, 1)   # budget multiplier (quick, thorough) applied to the n=(...) of every generated sub-property
 LEVEL = "exploration"
 RULE = ("inputs on exact-arithmetic lattices (times k/64 or k/16 s, pitches on a cent lattice that keeps >= 0.5 cent from every "
         "tolerance) with estimates mostly derived from the reference so that hits exist, non-default parameters drawn per call; key pairs "
